@@ -3,10 +3,16 @@ module verif/harness
 go 1.23.0
 
 require (
+	github.com/shogo82148/go-cbor v0.2.0
 	github.com/shogo82148/goat v0.0.0
 	golang.org/x/crypto v0.36.0
 )
 
-require golang.org/x/sys v0.31.0 // indirect
+require (
+	github.com/shogo82148/float16 v0.5.0 // indirect
+	github.com/shogo82148/int128 v0.2.1 // indirect
+	github.com/shogo82148/memoize v0.1.0 // indirect
+	golang.org/x/sys v0.31.0 // indirect
+)
 
 replace github.com/shogo82148/goat => /repo
